@@ -128,6 +128,86 @@ def file_failures(seed):
     return fails
 
 
+def reused_region_failures(seed):
+    """the same Region object is used, changed, and used again: the second mask must follow the changed region"""
+    rnd = random.Random(seed)
+    shape = (7, 8)
+    w = mk_wcs(rnd, shape, 'SIN')
+    reg = mk_region(rnd, w, shape, 8)
+    first = MIMAS.mask_plane(np.zeros(shape), w, reg)
+    ra, dec = w.wcs_pix2world(rnd.uniform(0, shape[1]), rnd.uniform(0, shape[0]), 0)
+    other = Region(maxdepth=8)
+    other.add_circles(np.radians(float(ra)), np.radians(float(dec)), np.radians(rnd.uniform(0.8, 2.5)))
+    op = rnd.choice(['union', 'without', 'symmetric_difference', 'intersect'])
+    getattr(reg, op)(other)
+    got = np.isnan(MIMAS.mask_plane(np.zeros(shape), w, reg))
+    # reference: a fresh region object with the same pixels
+    fresh = Region(maxdepth=8)
+    for d_, px in reg.pixeldict.items():
+        if len(px):
+            fresh.add_pixels(np.array(sorted(int(q) for q in px)), d_)
+    want = np.isnan(MIMAS.mask_plane(np.zeros(shape), w, fresh))
+    if not np.array_equal(got, want):
+        return ["after %s() on an already used region the mask still follows the old footprint (%d pixels differ)" % (op, int((got != want).sum()))]
+    return []
+
+
+def offsky_failures(seed, negate):
+    """an all-sky image: pixels outside the projection have no sky position -- never inside any region"""
+    rnd = random.Random(seed)
+    shape = (18, 36)
+    w = WCS(naxis=2)
+    w.wcs.crpix = [shape[1] / 2 + 0.5, shape[0] / 2 + 0.5]
+    w.wcs.cdelt = [-10.0, 10.0]
+    w.wcs.crval = [rnd.uniform(0, 360), 0.0]
+    w.wcs.ctype = ["RA---AIT", "DEC--AIT"]
+    reg = Region(maxdepth=5)
+    reg.add_circles(np.radians(w.wcs.crval[0]), np.radians(rnd.uniform(-30, 30)), np.radians(rnd.uniform(30, 70)))
+    data = np.ones(shape)
+    out = MIMAS.mask_plane(data.copy(), w, reg, negate=negate)
+    fails, noff = [], 0
+    for r in range(shape[0]):
+        for c in range(shape[1]):
+            ra, dec = w.wcs_pix2world(c, r, 0)
+            finite = bool(np.isfinite(ra) and np.isfinite(dec))
+            noff += not finite
+            inside = finite and bool(reg.sky_within(float(ra), float(dec), degin=True)[0])
+            want_blank = inside if negate else not inside
+            if bool(np.isnan(out[r, c])) != want_blank:
+                fails.append("pixel (row %d, col %d) %s: blank=%s (negate=%s)" % (
+                    r, c, "has no sky position" if not finite else ("inside" if inside else "outside"), bool(np.isnan(out[r, c])), negate))
+    if noff == 0:
+        fails.append("harness: no off-sky pixel in the all-sky image")
+    return fails[:3]
+
+
+def masked_table_failures(seed, negate):
+    """rows whose coordinates are masked (blank cells of a csv / VOTable) have no position: never inside"""
+    rnd = random.Random(seed)
+    reg = Region(maxdepth=7)
+    reg.add_circles(np.radians([0.0, 50.0]), np.radians([0.0, -20.0]), np.radians([6.0, 5.0]))
+    n = rnd.randint(3, 10)
+    ra = np.ma.masked_array([rnd.uniform(44, 56) for _ in range(n)], mask=[False] * n)
+    dec = np.ma.masked_array([rnd.uniform(-26, -14) for _ in range(n)], mask=[False] * n)
+    ra.data[1], dec.data[1] = 0.0, 0.0            # the value stored under the mask lies inside the region
+    ra[1] = np.ma.masked
+    dec.data[2] = -20.0
+    ra.data[2] = 50.0
+    dec[2] = np.ma.masked
+    t = Table({'ra': ra, 'dec': dec, 'id': np.arange(n)}, masked=True)
+    out = MIMAS.mask_table(reg, t, negate=negate)
+    want = []
+    for k in range(n):
+        has = not (ra.mask[k] or dec.mask[k])
+        inside = has and bool(reg.sky_within(float(ra.data[k]), float(dec.data[k]), degin=True)[0])
+        if inside == negate:
+            want.append(k)
+    got = [int(v) for v in out['id']]
+    if got != want:
+        return ["masked coordinates: rows kept %r, expected %r (negate=%s)" % (got, want, negate)]
+    return []
+
+
 def crosscheck(p):
     n = 12 if p.get("tier") != "thorough" else 150
     s0 = p.get("seed", 0) * 1000
@@ -148,6 +228,26 @@ def crosscheck(p):
             fl = table_failures(s0 + i, negate, ('ra', 'dec') if i % 2 else ('RAJ2000', 'DEJ2000'))
             if fl:
                 add("rows_kept_iff_not_inside", {"seed": s0 + i, "negate": negate}, fl, {"tables": [[s0 + i, negate]]})
+    for i in range(4 if p.get("tier") != "thorough" else 40):
+        evals += 1
+        fl = reused_region_failures(s0 + i)
+        if fl:
+            add("region_answers_follow_region_changes", {"reuse_seed": s0 + i}, fl, {"reuse": [s0 + i]})
+        for negate in (False, True):
+            evals += 1
+            try:
+                fl = offsky_failures(s0 + i, negate)
+            except Exception as e:
+                fl = ["mask_plane on an all-sky image raised %r" % (e,)]
+            if fl:
+                add("pixel_centre_convention_and_membership.off_sky", {"offsky_seed": s0 + i, "negate": negate}, fl, {"offsky": [[s0 + i, negate]]})
+            evals += 1
+            try:
+                fl = masked_table_failures(s0 + i, negate)
+            except Exception as e:
+                fl = ["mask_table with masked coordinates raised %r" % (e,)]
+            if fl:
+                add("rows_kept_iff_not_inside.masked", {"masked_seed": s0 + i, "negate": negate}, fl, {"masked": [[s0 + i, negate]]})
     for i in range(3):
         evals += 1
         fl = file_failures(s0 + i)
@@ -160,6 +260,20 @@ def crosscheck(p):
 
 def replay_masking(p):
     bad = []
+    for s in p.get("reuse") or []:
+        fl = reused_region_failures(s)
+        if fl:
+            bad.append({"reuse_seed": s, "what": fl})
+    for s, n in p.get("offsky") or []:
+        fl = offsky_failures(s, n)
+        if fl:
+            bad.append({"offsky_seed": s, "negate": n, "what": fl})
+    for s, n in p.get("masked") or []:
+        fl = masked_table_failures(s, n)
+        if fl:
+            bad.append({"masked_seed": s, "negate": n, "what": fl})
+    if p.get("reuse") or p.get("offsky") or p.get("masked"):
+        return {"fails": bool(bad), "observed": bad, "replay_func": "replay_masking", "replay_payload": p}
     planes = p.get("planes") or ([[s, n] for s in range(40) for n in (False, True)] if not p.get("tables") and not p.get("files") else [])
     for s, n in planes:
         fl, _ = plane_failures(s, n)
